@@ -89,6 +89,9 @@ def build(tree, default_env=False, late=False):
         p.add_argument("--cfg", action="config")
         for o, d in n["opts"].items():
             p.add_argument("--" + o, type=int, default=d)
+        # every parser also has an option three names deep that no input ever sets (nested keys below a subcommand are keys too);
+        # it is left out of the comparison
+        p.add_argument("--g.h.k", type=int, default=7)
         return p
 
     root = mk(tree, True)
@@ -163,7 +166,7 @@ def norm(r):
 
     def f(x):
         if isinstance(x, dict):
-            return {k: f(v) for k, v in x.items() if k not in ("cfg", "__path__")}
+            return {k: f(v) for k, v in x.items() if k not in ("cfg", "__path__", "g")}
         return x
 
     return f(d)
